@@ -92,7 +92,9 @@ theorem step_shape (s : State) (op : Op) : shape (step s op).sessions = shape s.
     unfold addObject; simp only []; split
     · rfl
     · split <;> rfl
-  | publish now => rfl
+  | publish now =>
+    show shape (publishOp s now).sessions = _
+    unfold publishOp; rw [publishTry_sessions]; rfl
   | remove t => show shape (removeObject s t).1.sessions = _; unfold removeObject; split <;> rfl
   | trigger t ts =>
     show shape (triggerTransferAt s t ts).1.sessions = _
@@ -183,7 +185,7 @@ theorem KeysInv.closed : Closed0 KeysInv where
   fileStart := fun s L _ now tk t _ h _ _ => by
     have h1 : KeysInv (fileStartStep s t now tk) L := h.updF _ t (fun f => transferInit f now tk) (fun _ => rfl) rfl rfl
     unfold autoPublish; split
-    · exact h1.publish now
+    · exact publishTry_elim (P := fun x => KeysInv x L) _ now (h1.publish now) h1
     · exact h1
   pkt := fun s L _ c _ _ _ _ _ _ h _ _ _ _ _ => h.updF _ c.key tickInfo (fun _ => rfl) rfl rfl
   done := fun s L _ c now _ _ _ h _ _ _ _ _ =>
@@ -393,7 +395,7 @@ theorem SafeInv.closed : Closed0 SafeInv where
   fileStart := fun s L _ now tk t _ h _ _ => by
     have h1 : SafeInv (fileStartStep s t now tk) L := h.same _ _ rfl rfl
     unfold autoPublish; split
-    · exact h1.publish now
+    · exact publishTry_elim (P := fun x => SafeInv x L) _ now (h1.publish now) h1
     · exact h1
   pkt := fun _ _ _ _ _ _ _ _ _ _ h _ _ _ _ _ => h
   done := fun s L _ c now _ _ _ h _ _ _ _ _ =>
